@@ -96,6 +96,7 @@ Lemma step_exact : forall c s l s', WF s -> Step c s l s' ->
   (r = length (R s) /\ exists tag k, l = LArrive tag k /\ q' = fresh_rq tag k (alookup (reqs s) tag)).
 Proof.
   intros c s l s' W H r0 q0 Hg. unfold is_spawn. step_rq H Hg W.
+  all: f1_split.
   all: try solve [left; eexists; split; [eassumption|];
                   simpl; repeat split; intros; auto; try congruence; eauto 12].
   all: try solve [left; eexists; split; [eassumption|];
@@ -114,6 +115,7 @@ Lemma step_exact2 : forall c s l s', WF s -> Step c s l s' ->
      (q_pc q' = WProc -> q_pc q = WProc \/ (q_pc q = WSpawned /\ q_flush q = false)).
 Proof.
   intros c s l s' W H r0 q00 q0 Hq0 Hg. step_rq H Hg W.
+  all: f1_split.
   all: try (exfalso; apply getq_lt in Hq0; lia).
   all: dedupe.
   all: simpl.
